@@ -128,6 +128,21 @@ fn query_json(q: &query::Query) -> String {
 fn handle(line: &str) -> String {
     let mut it = line.split('\t');
     let cmd = it.next().unwrap_or("");
+    #[cfg(target_os = "linux")]
+    if cmd == "caps" {
+        // the argument is the hex of the raw xattr bytes (not text)
+        let raw = line.split('\t').nth(1).unwrap_or("");
+        let mut bytes = vec![];
+        let b = raw.as_bytes();
+        let mut i = 0;
+        while i + 1 < b.len() {
+            let h = (b[i] as char).to_digit(16).unwrap_or(0);
+            let l = (b[i + 1] as char).to_digit(16).unwrap_or(0);
+            bytes.push((h * 16 + l) as u8);
+            i += 2;
+        }
+        return hex(&util::capabilities::parse_capabilities(bytes));
+    }
     let args: Option<Vec<String>> = it.map(unhex).collect();
     let args = match args {
         Some(a) => a,
@@ -250,21 +265,6 @@ fn handle(line: &str) -> String {
                 }
             }
             t.values().iter().map(|v| v.to_string()).collect::<Vec<_>>().join(",")
-        }
-        #[cfg(target_os = "linux")]
-        "caps" => {
-            // arg: hex of raw xattr bytes is passed through a latin-1 style string; use bytes directly
-            let raw = line.split('\t').nth(1).unwrap_or("");
-            let mut bytes = vec![];
-            let b = raw.as_bytes();
-            let mut i = 0;
-            while i + 1 < b.len() {
-                let h = (b[i] as char).to_digit(16).unwrap_or(0);
-                let l = (b[i + 1] as char).to_digit(16).unwrap_or(0);
-                bytes.push((h * 16 + l) as u8);
-                i += 2;
-            }
-            hex(&util::capabilities::parse_capabilities(bytes))
         }
         _ => "bad-op".to_string(),
     }
